@@ -361,6 +361,9 @@ def grid_strings(dt):
                 '-1234567890123456', '1234567.12345678', '12345678.12345678', '999', '9999', '10000', '99999', '0000',
                 '00001', '-999', '-1000', '1.0', '1.', '10.0']
         out += nums
+        for k in range(1, 14):
+            out += ['0.' + '0' * k, '-0.' + '0' * k, '+0.' + '0' * k, '0.' + '0' * k + '1', '00.' + '0' * k, '0' * k, '-' + '0' * k,
+                    '1.' + '0' * k, '10' + '0' * k, '0.' + '0' * k + '10']
     return sorted(set(out))
 
 
